@@ -1,5 +1,5 @@
 (* C17/Properties.v — property theorems only. Each is closed by a lemma of C17/Proofs.v, C17/ProofsCD.v or C17/ProofsW.v. *)
-From Relic Require Import Base.Prelude Base.Enc Generated.C17_gen C17.Model C17.Bytes C17.Proofs C17.ProofsCD C17.ProofsW.
+From Relic Require Import Base.Prelude Base.Enc Generated.C17_gen C17.Model C17.Bytes C17.Proofs C17.ProofsCD C17.ProofsW C17.Layout C17.ProofsL.
 
 (* 0. the Go wire structs have the APPNOTE field layouts and the length constants match them *)
 Theorem wire_layouts_are_appnote :
@@ -128,6 +128,105 @@ Theorem stream_descriptor16_empty_version45_refuted :
   exists ms, sizes_of Random (build ms (plain_opts 0)) = Ok (map sized_of ms) /\ sizes_of Stream (build ms (plain_opts 0)) = Err E_SEEK.
 Proof. exact C17.ProofsCD.stream_descriptor16_empty_version45_refuted. Qed.
 
+(* 8. THE WRITER WHEN MEMBERS ARE RE-INDEXED (C17/Layout.v).  The bodies of Directory.AddFile, File.GetDirectoryHeader and of the
+      loop of WriteDirectory are whole-body translations generated from the Go source (af_step, gdh_step, wd_loop_step); they are
+      exactly: raw dropped iff the offset changes / offset := DirLoc / DirLoc += size / member appended; cached raw entry or rebuilt
+      entry (ONE new ZIP64 record with all three values followed by the old extra field without its ZIP64 records, fields
+      saturated, version 45, f.Extra left as it was); minVersion / count / size *)
+Theorem addfile_body_is_model : forall size raw off dl files f,
+  af_step size raw off dl = (if negb (off =? dl) then [] else raw, dl, dl + size) /\
+  af_step_skipped = [0; 1; 2] /\ add_file_l files dl f size = add_file files dl f size.
+Proof. intros. split; [apply C17.ProofsL.af_step_model | split; [apply C17.ProofsL.af_step_statements | apply C17.ProofsL.add_file_l_model]]. Qed.
+Theorem getdirectoryheader_body_is_model : forall f, gdh_of f = (dir_header f, e_extra f).
+Proof. exact C17.ProofsL.gdh_of_model. Qed.
+Theorem writedirectory_loop_is_model : forall files dirloc force,
+  write_directory_l files dirloc force = (cd_bytes files, wd_tail files dirloc force, map after_write files) /\
+  write_directory files dirloc force false false = Ok (fst (write_directory_l files dirloc force)).
+Proof. intros. split; [apply C17.ProofsL.write_directory_l_model | apply C17.ProofsL.write_directory_model]. Qed.
+
+(* 9. For EVERY sequence of NewFile / AddFile calls on a new Directory — members of any size (lengths only, so 4 GiB and more),
+      kept members that move up or down across 0xffffffff or stay, with or without a cached raw entry, with or without a ZIP64
+      record in it — the directory and end records WriteDirectory emits are read by the APPNOTE reader (32-bit fields, 0xffffffff
+      = take the value from the ZIP64 extra record; ZIP64 end record / locator when an end-record field is saturated) as exactly
+      the intended members: name, the offset where the member's bytes physically start, sizes, CRC, in order; and DirLoc is the
+      physical end of the member data.  Domain: Go field ranges, lengths that fit their 16-bit fields with room for one ZIP64
+      record, archive below 2^63 bytes, cached raw entries that the APPNOTE reader reads as the File's fields (raw_ok). *)
+Theorem rewrite_directory_spec_read : forall ops force,
+  Forall op_ok ops ->
+  snd (wrun ops) + zlen (cd_bytes (fst (wrun ops))) < 2 ^ 63 ->
+  let w := write_directory_l (fst (wrun ops)) (snd (wrun ops)) force in
+  sp_read_tail (snd (wrun ops)) (fst (fst w) ++ snd (fst w)) = Some (fst (intended ops))
+  /\ snd (wrun ops) = snd (intended ops)
+  /\ write_directory (fst (wrun ops)) (snd (wrun ops)) force false false = Ok (fst w).
+Proof. exact C17.ProofsL.rewrite_directory_spec_read. Qed.
+(* raw_ok holds for cached entries that relic wrote itself earlier *)
+Theorem own_entries_are_raw_ok : forall g, ent_ok g -> 0 <= e_offset g < 2 ^ 64 ->
+  forall x, raw_ok (mkEnt (e_creator g) (e_reader g) (e_flags g) (e_method g) (e_mtime g) (e_mdate g) (e_crc g) (e_csize g) (e_usize g)
+                          (e_name g) x (e_comment g) (e_iattrs g) (e_eattrs g) (e_offset g) (regen_header g)).
+Proof. exact C17.ProofsL.raw_ok_own_entry. Qed.
+
+(* ... and for every entry relic parsed from an APPNOTE-built archive of class K (5.: d_files d = parsed (pairs ms)), whatever
+   its saturation mask and wherever its ZIP64 record sits in the extra field: a member kept from such an archive satisfies the
+   hypotheses of 9. *)
+Theorem parsed_entries_are_raw_ok : forall m off, central_ok m off -> raw_ok (parsed_ent m off).
+Proof. exact C17.ProofsL.raw_ok_parsed. Qed.
+Theorem kept_member_op_ok : forall m off size,
+  central_ok m off -> zlen (sp_cextra m off) + 28 < 65536 -> 0 <= size ->
+  op_ok (WAdd (with_crc (parsed_ent m off) (m_crc m)) size).
+Proof. exact C17.ProofsL.kept_member_op_ok. Qed.
+
+(* 10. Mangle on a source laid out back to back is the AddFile sequence of the kept members (so 9. applies to Mangle +
+       Mangler.NewFile + MakePatch), reports exactly the deleted ranges, the offsets it assigns are the old offsets minus the bytes
+       deleted in front (where the members are once the patch is applied), and it refuses any other source *)
+Theorem mangle_is_addfile_sequence : forall src dirloc,
+  contiguous src 0 -> src_total src = dirloc -> dirloc < 2 ^ 63 ->
+  mangle_l src dirloc = Ok (fst (wrun (kept_ops src)), snd (wrun (kept_ops src)), src_cuts src).
+Proof. exact C17.ProofsL.mangle_is_addfile_sequence. Qed.
+Theorem mangle_offsets_physical : forall src,
+  contiguous src 0 -> fst (intended (kept_ops src)) = kept_views src 0.
+Proof. intros src H. exact (C17.ProofsL.mangle_offsets_physical src 0 0 [] H). Qed.
+Theorem mangle_refuses_gap : forall m r pos out dl cuts,
+  0 <= e_offset (ms_ent m) < 2 ^ 63 -> e_offset (ms_ent m) <> pos -> mangle_walk_l (m :: r) pos out dl cuts = Err E_NOTCONTIG.
+Proof. exact C17.ProofsL.mangle_refuses_gap. Qed.
+
+(* 11. a second WriteDirectory on the same Directory emits the same bytes as the first (lib/signappx digests the first output
+       and writes the second): GetDirectoryHeader leaves f.Extra (declared as state of the generated body) as it was *)
+Theorem getdirectoryheader_keeps_extra : forall f, snd (gdh_of f) = e_extra f.
+Proof. exact C17.ProofsL.gdh_keeps_extra. Qed.
+Theorem second_write_same : forall files dirloc force,
+  fst (write_directory_l (snd (write_directory_l files dirloc force)) dirloc force) = fst (write_directory_l files dirloc force).
+Proof. exact C17.ProofsL.second_write_same. Qed.
+
+(* 12. UNIQUENESS of the ZIP64 record and the zipfile-style reader.  A rebuilt entry that needs ZIP64 carries exactly one ZIP64
+       record whatever records the old extra field had (withoutZip64Extra), one that does not need it carries the old extra
+       field untouched.  Therefore a reader that, like CPython's zipfile, visits EVERY ZIP64 record and lets a later one
+       overwrite a value that happens to equal 0xffffffff reads the same intended members as the APPNOTE reader (9.), for every
+       sequence of calls.  Domain in addition to 9.: extra fields that such a reader can walk (records up to fewer than 4
+       trailing bytes; it rejects anything else, before and after the rewrite) and cached raw entries it reads as the File's
+       fields (raw_ok_py: proved for entries relic wrote itself and for class-K entries whose other extra data are records). *)
+Theorem rebuilt_entry_has_one_zip64_record : forall f rest,
+  ent_ok f -> tlv (e_extra f) ->
+  if gdh_promote (e_csize f) (e_usize f) (e_offset f)
+  then entry_extra (regen_header f ++ rest) = Some (new_extra f) /\ z64_count (S (length (new_extra f))) (new_extra f) = 1
+  else entry_extra (regen_header f ++ rest) = Some (e_extra f).
+Proof. exact C17.ProofsL.rebuilt_entry_one_zip64. Qed.
+Theorem rewrite_directory_zipfile_read : forall ops force,
+  Forall op_ok_py ops ->
+  snd (wrun ops) + zlen (cd_bytes (fst (wrun ops))) < 2 ^ 63 ->
+  let w := write_directory_l (fst (wrun ops)) (snd (wrun ops)) force in
+  sp_read_tail_py (snd (wrun ops)) (fst (fst w) ++ snd (fst w)) = Some (fst (intended ops)).
+Proof. exact C17.ProofsL.rewrite_directory_zipfile_read. Qed.
+Theorem own_entries_are_raw_ok_py : forall g, ent_ok g -> tlv (e_extra g) -> 0 <= e_offset g < 2 ^ 64 ->
+  forall x, raw_ok_py (mkEnt (e_creator g) (e_reader g) (e_flags g) (e_method g) (e_mtime g) (e_mdate g) (e_crc g) (e_csize g) (e_usize g)
+                             (e_name g) x (e_comment g) (e_iattrs g) (e_eattrs g) (e_offset g) (regen_header g)).
+Proof. exact C17.ProofsL.raw_ok_py_own_entry. Qed.
+Theorem parsed_entries_are_raw_ok_py : forall m off, central_ok m off -> wf_extra (m_cextra m) -> raw_ok_py (parsed_ent m off).
+Proof. exact C17.ProofsL.raw_ok_py_parsed. Qed.
+Theorem kept_member_op_ok_py : forall m off size,
+  central_ok m off -> wf_extra (m_cextra m) -> zlen (sp_cextra m off) + 28 < 65536 -> 0 <= size ->
+  op_ok_py (WAdd (with_crc (parsed_ent m off) (m_crc m)) size).
+Proof. exact C17.ProofsL.kept_member_op_ok_py. Qed.
+
 (* non-vacuity: class K is inhabited by archives with every supported feature, and the conclusions are computed on them *)
 Definition ex_members : list smember :=
   [mkMem [97] [] [] [] 20 20 0 0 0 0 11 [1; 2; 3] 3 0 0 0 DNone false false false false false;         (* stored, no descriptor *)
@@ -161,3 +260,63 @@ Example writer_hypotheses_satisfiable :
   let cs := [mkCall [97] [] [] 0 0 0 0 0 true; mkCall [98] [254; 202; 0; 0] [1; 2] 2 7 0 0 0 false] in
   Forall call_ok cs /\ fresh_archive cs false = build (map nf_member cs) (plain_opts 1).
 Proof. split; [repeat constructor; vm_compute; congruence|vm_compute; reflexivity]. Qed.
+
+(* non-vacuity of 9.: a kept member with a cached plain entry at offset 16 is pushed ABOVE 0xffffffff by a prepended 4 GiB member
+   (lengths only), another with a cached ZIP64 entry at 2^32+5 comes DOWN to offset 0; hypotheses hold, the conclusion is computed *)
+Definition ex_g_low : cdent := mkEnt 20 20 0 0 0 0 77 5 5 [107] [] [] 0 0 16 [].
+Definition ex_g_high : cdent := mkEnt 45 45 0 0 0 0 78 6 6 [104] [] [] 0 0 4294967301 [].
+Definition ex_kept_low : cdent := mkEnt 20 20 0 0 0 0 77 5 5 [107] [] [] 0 0 16 (regen_header ex_g_low).
+Definition ex_kept_high : cdent := mkEnt 45 45 0 0 0 0 78 6 6 [104] (z64rec ex_g_high) [] 0 0 4294967301 (regen_header ex_g_high).
+Lemma ex_ent_ok : ent_ok ex_g_low /\ ent_ok ex_g_high /\ ent_ok ex_kept_low /\ ent_ok ex_kept_high.
+Proof. repeat split; vm_compute; congruence. Qed.
+Example rewrite_hypotheses_satisfiable_up :
+  let ops := [WNew w_big; WAdd ex_kept_low 36] in
+  Forall op_ok ops /\
+  sp_read_tail (snd (wrun ops)) (fst (fst (write_directory_l (fst (wrun ops)) (snd (wrun ops)) false)) ++
+                                 snd (fst (write_directory_l (fst (wrun ops)) (snd (wrun ops)) false)))
+  = Some [mkSE [98] 0 4294967296 4294967296 7; mkSE [107] 4294967327 5 5 77].
+Proof.
+  split.
+  - constructor; [vm_compute; repeat split; congruence|]. constructor; [|constructor].
+    split; [apply ex_ent_ok|]. split; [|lia].
+    apply (own_entries_are_raw_ok ex_g_low); [apply ex_ent_ok | vm_compute; split; congruence].
+  - vm_compute. reflexivity.
+Qed.
+Example rewrite_hypotheses_satisfiable_down :
+  let ops := [WAdd ex_kept_high 37; WNew w_small] in
+  Forall op_ok ops /\
+  sp_read_tail (snd (wrun ops)) (fst (fst (write_directory_l (fst (wrun ops)) (snd (wrun ops)) true)) ++
+                                 snd (fst (write_directory_l (fst (wrun ops)) (snd (wrun ops)) true)))
+  = Some [mkSE [104] 0 6 6 78; mkSE [115] 37 3 3 9].
+Proof.
+  split.
+  - constructor.
+    + split; [apply ex_ent_ok|]. split; [|lia].
+      apply (own_entries_are_raw_ok ex_g_high); [apply ex_ent_ok | vm_compute; split; congruence].
+    + constructor; [vm_compute; repeat split; congruence|constructor].
+  - vm_compute. reflexivity.
+Qed.
+
+(* regression for relic 0526757 (finding C17:GetDirectoryHeader:stale-zip64-record-kept): a kept member whose cached entry and
+   parsed extra field carry a ZIP64 record for its old offset 2^32+5 is re-indexed at EXACTLY 0xffffffff behind a member of
+   that length; both readers read the new offset, the emitted entry has one ZIP64 record, a second write is identical *)
+Definition w_exact : nfl := mkNfl [98] [] 4294967264 4294967264 7 0 0 0 false.
+Example stale_zip64_record_regression :
+  let ops := [WNew w_exact; WAdd ex_kept_high 37] in
+  let w := write_directory_l (fst (wrun ops)) (snd (wrun ops)) false in
+  snd (intended [WNew w_exact]) = 4294967295 /\
+  sp_read_tail (snd (wrun ops)) (fst (fst w) ++ snd (fst w)) = Some [mkSE [98] 0 4294967264 4294967264 7; mkSE [104] 4294967295 6 6 78] /\
+  sp_read_tail_py (snd (wrun ops)) (fst (fst w) ++ snd (fst w)) = Some [mkSE [98] 0 4294967264 4294967264 7; mkSE [104] 4294967295 6 6 78] /\
+  fst (write_directory_l (snd w) (snd (wrun ops)) false) = fst w.
+Proof. vm_compute. repeat split; reflexivity. Qed.
+Example zipfile_hypotheses_satisfiable :
+  Forall op_ok_py [WNew w_exact; WAdd ex_kept_high 37].
+Proof.
+  assert (T : tlv (z64rec ex_g_high)).
+  { rewrite C17.ProofsL.z64rec_bytes.
+    apply (tlv_rec 1 (le_enc 8 (e_usize ex_g_high) ++ le_enc 8 (e_csize ex_g_high) ++ le_enc 8 (e_offset ex_g_high)) []); [lia | vm_compute; reflexivity | apply tlv_end; vm_compute; reflexivity]. }
+  constructor; [split; [vm_compute; repeat split; congruence | apply tlv_end; vm_compute; reflexivity]|].
+  constructor; [|constructor].
+  split; [apply ex_ent_ok|]. split; [|split; [lia | exact T]].
+  apply (own_entries_are_raw_ok_py ex_g_high); [apply ex_ent_ok | apply tlv_end; vm_compute; reflexivity | vm_compute; split; congruence].
+Qed.
